@@ -143,7 +143,7 @@ PROPS = {
     "C20": {"level": "model_checking", "stages": [HOST_MBT, VEST_ACCTS, SIG_MBT, DIST_UPD, MINTER_UPD],
             "assumptions": TRUST + ["field value classes are concretised by the harness (one representative per class); handlers are called through the modules' message servers, queries through the keepers' gRPC methods",
                                     "a panic of a handler on a message that ValidateBasic rejects is counted (handler-only) but not reported: a signer cannot reach it"]},
-    "C18": {"level": "model_checking", "stages": [MINTER_SCHED, DIST_CUR, VEST_POOLS, VEST_TRACE], "assumptions": TRUST},
+    "C18": {"level": "model_checking", "stages": [MINTER_SCHED, DIST_CUR, VEST_POOLS, VEST_TRACE, VEST_HUGE], "assumptions": TRUST},
     "C19": {"level": "model_checking", "stages": [MINTER_MC, MINTER_SCHED, MINTER_UPD, MINTER_NUM], "assumptions": TRUST + ["inflation is compared with the model value within 2/P (the model truncates the same rational at 1/P twice)"]},
     "C05": {"level": "model_checking", "stages": [VEST_MC, VEST_POOLS, VEST_TRACE, VEST_HUGE], "assumptions": VEST_ASSUME},
     "C06": {"level": "model_checking", "stages": [VEST_MC, VEST_POOLS, VEST_TRACE, VEST_HUGE], "assumptions": VEST_ASSUME},
